@@ -9,7 +9,7 @@ from ..cfg import NORMAL, Node, handler_classes
 from ..core import Ctx
 from ..flow import ALL, find_path, names_in
 from ..model import AnalysisError, FunctionInfo, dotted, norm_text
-from .common import edge_target, resolve_value, handler_exits, handler_nodes, in_handler, in_try_body, kwarg, reachable_from
+from .common import edge_target, resolve_value, effective_returns, handler_exits, handler_nodes, in_handler, in_try_body, kwarg, reachable_from
 
 EXPLANATION = (
     "Static analysis of the pruning decision: (R1) ORDER-TYPE abstract interpretation - _file_may_match touches file_min, "
@@ -472,7 +472,49 @@ def r4(ctx: Ctx) -> None:
     ctx.rule("C13.R4", "bound codec tables agree: tags written = tags read, inverse constructors, subclass tests first", 4)
     enc = ctx.fn("file_manager.FileManager._encode_bound")
     dec = ctx.fn("file_manager.FileManager._decode_bound")
+    mod = enc.module
+
+    def _table(e: Optional[ast.AST]) -> Optional[ast.AST]:
+        """a module- or class-level constant display behind a name (`_TABLE`, `cls._TABLE`, `self._TABLE`)"""
+        if isinstance(e, ast.Name) and e.id in mod.consts:
+            return mod.consts[e.id]
+        if isinstance(e, ast.Attribute) and enc.cls is not None and e.attr in enc.cls.consts:
+            return enc.cls.consts[e.attr]
+        return e if isinstance(e, (ast.Tuple, ast.List, ast.Dict)) else None
+
+    def _fn_kind(fn: Optional[ast.AST], arg: str = "value") -> str:
+        """what `fn(<arg>)` computes, as normalised text: builtin constructor / lambda body / the returned expression of a
+        one-parameter function of the module (locals resolved)"""
+        if isinstance(fn, ast.Lambda) and len(fn.args.args) == 1:
+            body = ast.parse(norm_text(fn.body), mode="eval").body
+            for x in ast.walk(body):
+                if isinstance(x, ast.Name) and x.id == fn.args.args[0].arg:
+                    x.id = arg
+            return norm_text(body)
+        d = dotted(fn) if fn is not None else None
+        if d is None:
+            return "?"
+        tgt = next((x for x in ctx.prog.functions.values() if x.module is mod and x.name == d.split(".")[-1] and x.parent is None
+                    and len([p_ for p_ in x.params if p_.name not in ("self", "cls")]) == 1), None) if "." not in d or d.split(".")[0] in ("self", "cls") else None
+        if tgt is None:
+            return f"{d}({arg})"
+        pn = [p_.name for p_ in tgt.params if p_.name not in ("self", "cls")][0]
+        outs = set()
+        for r, v in effective_returns(ctx, tgt):
+            for src, _a in resolve_value(ctx, tgt, v, r.id):
+                if src is None:
+                    outs.add("None")
+                    continue
+                body = ast.parse(norm_text(src), mode="eval").body
+                for x in ast.walk(body):
+                    if isinstance(x, ast.Name) and x.id == pn:
+                        x.id = arg
+                outs.add(norm_text(body))
+        return outs.pop() if len(outs) == 1 else "?"
+
     written: Dict[str, str] = {}
+    payloads: List[str] = []
+    chain: List[str] = []
     for n in ast.walk(enc.node):
         if isinstance(n, ast.If) and isinstance(n.test, ast.Call) and (dotted(n.test.func) or "") == "isinstance":
             cls = norm_text(n.test.args[1])
@@ -480,6 +522,42 @@ def r4(ctx: Ctx) -> None:
                 for k, v in zip(d.keys, d.values):
                     if isinstance(k, ast.Constant) and k.value == "t" and isinstance(v, ast.Constant):
                         written[str(v.value)] = cls
+    if written:
+        chain = _isinstance_chain(enc, "value")
+        for n in ast.walk(enc.node):
+            if isinstance(n, ast.Dict):
+                for k, v in zip(n.keys, n.values):
+                    if isinstance(k, ast.Constant) and k.value == "v":
+                        payloads.append(norm_text(v))
+    else:
+        # table form: first-match search `next((<tag>, <fn>) for <cls>, <tag>, <fn> in TABLE if isinstance(value, <cls>)), FALLBACK)`
+        for n in ast.walk(enc.node):
+            if not (isinstance(n, ast.Call) and dotted(n.func) == "next" and n.args and isinstance(n.args[0], ast.GeneratorExp)):
+                continue
+            ge = n.args[0]
+            if len(ge.generators) != 1 or not isinstance(ge.generators[0].target, ast.Tuple):
+                continue
+            tnames = [t.id if isinstance(t, ast.Name) else "?" for t in ge.generators[0].target.elts]
+            tests = [c for c in ge.generators[0].ifs if isinstance(c, ast.Call) and dotted(c.func) == "isinstance" and len(c.args) == 2
+                     and isinstance(c.args[1], ast.Name) and c.args[1].id in tnames]
+            tab = _table(ge.generators[0].iter)
+            if len(tests) != 1 or len(ge.generators[0].ifs) != 1 or not isinstance(tab, (ast.Tuple, ast.List)):
+                continue
+            ci = tnames.index(tests[0].args[1].id)  # type: ignore[attr-defined]
+            rows = [r_ for r_ in tab.elts if isinstance(r_, ast.Tuple) and len(r_.elts) == len(tnames)]
+            if len(rows) != len(tab.elts):
+                continue
+            fb = _table(n.args[1]) if len(n.args) > 1 else None
+            for r_ in rows + ([fb] if isinstance(fb, ast.Tuple) else []):
+                consts_ = [x for x in r_.elts if isinstance(x, ast.Constant) and isinstance(x.value, str)]
+                fns = [x for x in r_.elts if not isinstance(x, ast.Constant) and (r_ is fb or x is not r_.elts[ci])]
+                if len(consts_) != 1 or len(fns) != 1:
+                    continue
+                if r_ is not fb:
+                    written[str(consts_[0].value)] = norm_text(r_.elts[ci])
+                    chain.append(norm_text(r_.elts[ci]))
+                payloads.append(_fn_kind(fns[0]).replace("_identity(value)", "value"))
+        payloads = ["value" if p_ == "value" else p_ for p_ in payloads]
     read: Dict[str, str] = {}
     for n in ast.walk(dec.node):
         if isinstance(n, ast.If) and isinstance(n.test, ast.Compare) and isinstance(n.test.comparators[0], ast.Constant) \
@@ -488,6 +566,19 @@ def r4(ctx: Ctx) -> None:
             rets = [x for s in n.body for x in ast.walk(s) if isinstance(x, ast.Return) and x.value is not None]
             if rets:
                 read[tag] = norm_text(rets[0].value)
+    lookups: List[ast.AST] = []
+    if not read:
+        # table form: TABLE.get(tag) / TABLE[tag] with TABLE = {<tag>: <constructor>}
+        for n in ast.walk(dec.node):
+            tab = None
+            if isinstance(n, ast.Call) and isinstance(n.func, ast.Attribute) and n.func.attr == "get" and n.args:
+                tab = _table(n.func.value)
+            elif isinstance(n, ast.Subscript) and isinstance(n.ctx, ast.Load):
+                tab = _table(n.value)
+            if isinstance(tab, ast.Dict) and tab.keys and all(isinstance(k, ast.Constant) and isinstance(k.value, str) for k in tab.keys):
+                lookups.append(n)
+                for k, v in zip(tab.keys, tab.values):
+                    read[str(k.value)] = _fn_kind(v, "v")  # type: ignore[union-attr]
     if not written or not read:
         raise AnalysisError("bound codec tables not found")
     ctx.ob("C13.R4", enc, "tags written == tags read", None, set(written) == set(read),
@@ -505,20 +596,11 @@ def r4(ctx: Ctx) -> None:
     ctx.ob("C13.R4", dec, "each tag decodes with the inverse constructor of what encodes it", None, not bad,
            f"mismatches: {bad}" if bad else f"{len(read)} tags", text="inverse")
     # the encoder is LOSSLESS: the payload value is the value itself, its argument-less isoformat(), or str() of it
-    lossy = []
-    for n in ast.walk(enc.node):
-        if isinstance(n, ast.Dict):
-            for k, v in zip(n.keys, n.values):
-                if isinstance(k, ast.Constant) and k.value == "v":
-                    t = norm_text(v)
-                    if t in ("value", "str(value)", "value.isoformat()"):
-                        continue
-                    lossy.append(t)
-    ctx.ob("C13.R4", enc, "every bound is encoded losslessly", None, not lossy,
+    lossy = [t for t in payloads if t not in ("value", "str(value)", "value.isoformat()")]
+    ctx.ob("C13.R4", enc, "every bound is encoded losslessly", None, bool(payloads) and not lossy,
            ("payload expressions are value / value.isoformat() / str(value)" if not lossy else
             f"lossy payload expression(s) {lossy}: a rounded upper bound lies BELOW the file's real maximum, so files holding "
             f"matching rows are pruned"), text="lossless")
-    chain = _isinstance_chain(enc, "value")
     def before(a: str, b: str) -> bool:
         return a in chain and b in chain and chain.index(a) < chain.index(b)
     ctx.ob("C13.R4", enc, "bool is tested before int, datetime before date", None, before("bool", "int") and before("datetime", "date"),
@@ -529,7 +611,9 @@ def r4(ctx: Ctx) -> None:
     dom = ctx.dom(dec, ALL)
     tag_b = [b for b in g.nodes if b.kind == "branch" and isinstance(b.ast, ast.Compare) and isinstance(b.ast.ops[0], ast.Eq)
              and isinstance(b.ast.comparators[0], ast.Constant) and b.ast.comparators[0].value in read]
-    ok = bool(legacy) and all(not any(l.id in reachable_from(g, b.id, NORMAL) for b in tag_b) for l in legacy)
+    tag_b += [n for n in g.nodes if n.ast is not None and n.kind in ("stmt", "branch", "return", "call")
+              and any(x is y for x in lookups for y in ast.walk(n.ast))]
+    ok = bool(legacy) and bool(tag_b) and all(not any(l.id in reachable_from(g, b.id, NORMAL) for b in tag_b) for l in legacy)
     ctx.ob("C13.R4", dec, "the untagged fallback is unreachable for tagged input", legacy[0] if legacy else None, ok,
            "a tagged payload is never re-interpreted by the lossy legacy inference (audit #34)")
     # writer uses _encode_bound, reader uses _decode_bound, for both maps
